@@ -14,6 +14,7 @@
 //!   nohdr (no account header) · unknown (random key) · revoked (d1) · otherbytes (d0 over other bytes) ·
 //!   otheracct (B's key, account A) · toB (A's key, account B) · denyhdr (valid for account A2 that the lists refuse) ·
 //!   dropped (d2: trusted until phase 2 cuts its Trust event off the device log by a rewinding patch) ·
+//!   rerevoked (d3: trusted, revoked, trusted again before phase 0; phase 1 revokes it a second time) ·
 //!   bodyswap (valid signature, but the body sent differs from the one the client built: only meaningful where a body is sent)
 use crate::sync::{password, Device, Gate, Server};
 use crate::util::{kv, rt};
@@ -269,6 +270,17 @@ pub fn run(text: &str, cases_path: &str, out: &mut impl Write) {
                 let r = acc.patch_devices_unchecked(&[DeviceEvent::Trust(td)]).await;
                 writeln!(out, "{id} !setup trust_d2={}", r.is_ok()).unwrap();
             }
+            // a fourth one (d3): trusted, revoked and trusted again before phase 0 (so it is trusted in phase 0);
+            // phase 1 revokes it a second time: the device log then holds Revoke(d3) twice, byte-identical
+            let d3 = DeviceSigner::random();
+            let d3_signer = d3.signing_key().clone();
+            {
+                let mut acc = a.dev.bridge.account.lock().await;
+                let r1 = acc.patch_devices_unchecked(&[DeviceEvent::Trust(TrustedDevice::new(d3.public_key(), None, None))]).await;
+                let r2 = acc.revoke_device(&d3.public_key()).await;
+                let r3 = acc.patch_devices_unchecked(&[DeviceEvent::Trust(TrustedDevice::new(d3.public_key(), None, None))]).await;
+                writeln!(out, "{id} !setup trust_revoke_trust_d3={}{}{}", r1.is_ok() as u8, r2.is_ok() as u8, r3.is_ok() as u8).unwrap();
+            }
             let r3 = ba.execute_sync(&SyncOptions::default()).await;
             writeln!(out, "{id} !setup sync_trust={}", r3.is_ok()).unwrap();
             // a file blob on the server for the file routes (uploaded with valid credentials below)
@@ -286,9 +298,10 @@ pub fn run(text: &str, cases_path: &str, out: &mut impl Write) {
                 if phase >= 1 && phase_now == 0 {
                     let mut acc = a.dev.bridge.account.lock().await;
                     let r = acc.revoke_device(&d1.public_key()).await;
+                    let rr = acc.revoke_device(&d3.public_key()).await;
                     drop(acc);
                     let r2 = ba.execute_sync(&SyncOptions::default()).await;
-                    writeln!(out, "{id} !setup revoke_d1={} sync={}", r.is_ok(), r2.is_ok()).unwrap();
+                    writeln!(out, "{id} !setup revoke_d1={} revoke_d3_again={} sync={}", r.is_ok(), rr.is_ok(), r2.is_ok()).unwrap();
                     phase_now = 1;
                 }
                 if phase >= 2 && phase_now == 1 {
@@ -429,6 +442,10 @@ pub fn run(text: &str, cases_path: &str, out: &mut impl Write) {
                     "dropped" => {
                         headers.push(hdr_account(&a.id));
                         headers.push(("Authorization".into(), format!("Bearer {}", sig_token(&d2_signer, &signed).await)));
+                    }
+                    "rerevoked" => {
+                        headers.push(hdr_account(&a.id));
+                        headers.push(("Authorization".into(), format!("Bearer {}", sig_token(&d3_signer, &signed).await)));
                     }
                     "otherbytes" => {
                         headers.push(hdr_account(&a.id));
